@@ -3,6 +3,7 @@ from __future__ import annotations
 import itertools
 from typing import TYPE_CHECKING
 
+from ufo2ft import _verif
 from ufo2ft.constants import (
     COLOR_LAYER_MAPPING_KEY,
     COLOR_LAYERS_KEY,
@@ -104,8 +105,10 @@ class BasePreProcessor:
     def process(self):
         ufo = self.ufo
         glyphSet = self.glyphSet
+        _verif.emit("PreStart", preprocessor=self, font=ufo, glyphSet=glyphSet)
         for func in self.preFilters + self.defaultFilters + self.postFilters:
             func(ufo, glyphSet)
+            _verif.emit("Filter", filter=func, font=ufo, glyphSet=glyphSet)
         return glyphSet
 
 
@@ -309,6 +312,7 @@ class BaseInterpolatablePreProcessor:
         return filterses
 
     def process(self):
+        _verif.emit("IPreStart", preprocessor=self, fonts=self.ufos, glyphSets=self.glyphSets)
         # first apply all custom pre-filters, then all default filters, and finally
         # all custom post-filters
         for filterses in (self.preFilters, self.defaultFilters, self.postFilters):
@@ -325,6 +329,13 @@ class BaseInterpolatablePreProcessor:
     def _run_interpolatable(self, filter_: BaseIFilter) -> set[str]:
         # apply a single, interpolatable filter to all the glyphSets
         modified = filter_(self.ufos, self.glyphSets, self.instantiator)
+        _verif.emit(
+            "IFilter",
+            filter=filter_,
+            fonts=self.ufos,
+            glyphSets=self.glyphSets,
+            modified=modified,
+        )
         if modified:
             self._update_instantiator()
         return modified
@@ -392,6 +403,7 @@ class BaseInterpolatablePreProcessor:
         for filter_, ufo, glyphSet in zip_strict(filters, self.ufos, self.glyphSets):
             if filter_ is not None:
                 modified |= filter_(ufo, glyphSet)
+                _verif.emit("Filter", filter=filter_, font=ufo, glyphSet=glyphSet)
         if modified:
             self._update_instantiator()
         return modified
@@ -462,6 +474,7 @@ class TTFInterpolatablePreProcessor(BaseInterpolatablePreProcessor):
     def process(self):
         from fontTools.cu2qu.ufo import fonts_to_quadratic
 
+        _verif.emit("IPreStart", preprocessor=self, fonts=self.ufos, glyphSets=self.glyphSets)
         # first apply all custom pre-filters
         for funcs in itertools.zip_longest(*self.preFilters):
             self._run(*funcs)
@@ -494,6 +507,7 @@ class TTFInterpolatablePreProcessor(BaseInterpolatablePreProcessor):
                 all_quadratic=self.allQuadratic,
             ):
                 self._update_instantiator()
+            _verif.emit("Cu2QuI", fonts=self.ufos, glyphSets=self.glyphSets)
         elif self._reverseDirection:
             from ufo2ft.filters.reverseContourDirection import (
                 ReverseContourDirectionFilter,
